@@ -32,6 +32,7 @@
 #include <ucontext.h>
 #include <fcntl.h>
 #include <pthread.h>
+#include <sys/stat.h>
 
 #if defined(__has_feature)
 #  if __has_feature(address_sanitizer)
@@ -181,6 +182,71 @@ static void OnTerminate()
 	EmitFromHandler("\"o\":\"Terminate\",\"x\":\"std::terminate\"");
 	_exit(42);
 }
+
+//------------------------------------------------------------------------------------------------
+// Sanitizer reports (sanitizer builds: stderr of the child is a file)
+//------------------------------------------------------------------------------------------------
+static std::string SummarizeReport(const std::string& textIn)
+{
+	// Tokenises the first report of the text: kind (ASan error class, or "ubsan:<check>"), source file / line when the report
+	// carries one (UBSan always does), and the raw first lines for the replay file.  No judgement here.
+	std::istringstream f(textIn);
+	std::string line, kind, text, file;
+	long lineNo = 0;
+	while (std::getline(f, line)) {
+		size_t p;
+		if ((p = line.find("runtime error: ")) != std::string::npos && kind.empty()) {
+			const std::string msg = line.substr(p + 15);
+			text = msg.substr(0, 160);
+			const char* cat = "other";
+			if (msg.rfind("load of misaligned address", 0) == 0 || msg.rfind("reference binding to misaligned", 0) == 0) cat = "misaligned-load";
+			else if (msg.rfind("store to misaligned address", 0) == 0 || msg.rfind("member access within misaligned", 0) == 0 || msg.rfind("member call on misaligned", 0) == 0) cat = "misaligned-access";
+			else if (msg.find("signed integer overflow") != std::string::npos) cat = "signed-overflow";
+			else if (msg.find("applying non-zero offset") != std::string::npos || msg.find("pointer index expression") != std::string::npos || msg.find("applying zero offset to null") != std::string::npos) cat = "pointer-overflow";
+			else if (msg.find("out of bounds") != std::string::npos) cat = "bounds";
+			else if (msg.find("shift exponent") != std::string::npos || msg.find("left shift") != std::string::npos) cat = "shift";
+			else if (msg.find("null pointer") != std::string::npos) cat = "null";
+			else if (msg.find("is outside the range of representable values") != std::string::npos) cat = "float-cast-overflow";
+			else if (msg.find("not a valid value for type") != std::string::npos) cat = "invalid-enum-or-bool";
+			else if (msg.find("division by zero") != std::string::npos) cat = "div-by-zero";
+			else if (msg.find("negation of") != std::string::npos) cat = "signed-overflow";
+			kind = std::string("ubsan:") + cat;
+			// "<path>:<line>:<col>: runtime error: ..."
+			const std::string loc = line.substr(0, p >= 2 ? p - 2 : 0);
+			const size_t c2 = loc.rfind(':');
+			const size_t c1 = c2 == std::string::npos ? std::string::npos : loc.rfind(':', c2 - 1);
+			if (c1 != std::string::npos) {
+				const size_t sl = loc.rfind('/', c1);
+				file = loc.substr(sl == std::string::npos ? 0 : sl + 1, c1 - (sl == std::string::npos ? 0 : sl + 1));
+				lineNo = atol(loc.c_str() + c1 + 1);
+			}
+		}
+		if ((p = line.find("ERROR: AddressSanitizer: ")) != std::string::npos && kind.empty()) {
+			const std::string rest = line.substr(p + 25);
+			kind = rest.substr(0, rest.find_first_of(" :("));
+			text = rest.substr(0, 160);
+			if (rest.rfind("requested allocation size", 0) == 0) kind = "allocation-size-too-big";
+		}
+		if ((p = line.find("ERROR: LeakSanitizer: ")) != std::string::npos && kind.empty()) { kind = "leak"; text = line.substr(p + 22, 160); }
+		if ((p = line.find("SUMMARY: ")) != std::string::npos && text.size() < 240) text += " | " + line.substr(p + 9, 160);
+	}
+	if (kind.empty()) return "";
+	return "\"kind\":\"" + vh::JsonEscape(kind) + "\",\"file\":\"" + vh::JsonEscape(file) + "\",\"line\":" + std::to_string(lineNo) + ",\"report\":\"" + vh::JsonEscape(text) + "\"";
+}
+#if RB_SAN
+static off_t g_errSeen = 0;
+// text written to stderr since the last call (recoverable UBSan checks print a report and continue)
+static std::string NewStderrText()
+{
+	struct stat st{};
+	if (fstat(2, &st) != 0 || st.st_size <= g_errSeen) return "";
+	std::string buf(static_cast<size_t>(std::min<off_t>(st.st_size - g_errSeen, 1 << 16)), '\0');
+	const ssize_t n = pread(2, buf.data(), buf.size(), g_errSeen);
+	g_errSeen = st.st_size;
+	buf.resize(n > 0 ? static_cast<size_t>(n) : 0);
+	return buf;
+}
+#endif
 
 //------------------------------------------------------------------------------------------------
 // Exception in flight -> class name
@@ -543,6 +609,13 @@ static void ExecuteRun(const Input& in, const std::string& target, const std::st
 #endif
 	clock_gettime(CLOCK_PROCESS_CPUTIME_ID, &t1);
 	const long long us = (t1.tv_sec - t0.tv_sec) * 1000000LL + (t1.tv_nsec - t0.tv_nsec) / 1000;
+#if RB_SAN
+	{
+		// a recoverable check reported during this run: the run is a sanitizer observation although it went on
+		const std::string rep = SummarizeReport(NewStderrText());
+		if (!rep.empty()) { extra += ",\"was\":\"" + outcome + "\"," + rep; outcome = "Sanitizer"; exc = "recovered"; }
+	}
+#endif
 	// the stream copy of the document is part of the harness, not of the loader: it is reported so that the judge can discount it
 	fprintf(stdout, "{%s,\"o\":\"%s\",\"x\":\"%s\",\"acc\":\"%s\",\"pk\":%llu,\"tb\":%llu,\"na\":%llu,\"rf\":%llu,\"us\":%lld%s}\n", g_label, outcome.c_str(),
 		vh::JsonEscape(exc).c_str(), RB_ACC, std::min<unsigned long long>(rb::g_acc.peak, 1ull << 30), std::min<unsigned long long>(rb::g_acc.total, 1ull << 30),
@@ -555,21 +628,9 @@ static void ExecuteRun(const Input& in, const std::string& target, const std::st
 static std::string SanitizerSummary(const std::string& path)
 {
 	std::ifstream f(path, std::ios::binary);
-	std::string line, kind, text;
-	while (std::getline(f, line)) {
-		size_t p;
-		if ((p = line.find("runtime error: ")) != std::string::npos && text.empty()) { kind = "ubsan"; text = line.substr(p + 15, 160); }
-		if ((p = line.find("ERROR: AddressSanitizer: ")) != std::string::npos && kind.empty()) {
-			const std::string rest = line.substr(p + 25);
-			kind = rest.substr(0, rest.find_first_of(" :("));
-			text = rest.substr(0, 160);
-			if (rest.rfind("requested allocation size", 0) == 0) kind = "allocation-size-too-big";
-		}
-		if ((p = line.find("ERROR: LeakSanitizer: ")) != std::string::npos && kind.empty()) { kind = "leak"; text = line.substr(p + 22, 160); }
-		if ((p = line.find("SUMMARY: ")) != std::string::npos && text.size() < 200) text += " | " + line.substr(p + 9, 200);
-	}
-	if (kind.empty()) return "";
-	return "\"kind\":\"" + vh::JsonEscape(kind) + "\",\"report\":\"" + vh::JsonEscape(text) + "\"";
+	std::stringstream ss;
+	ss << f.rdbuf();
+	return SummarizeReport(ss.str());
 }
 
 int main(int argc, char** argv)
@@ -630,7 +691,7 @@ int main(int argc, char** argv)
 		{
 			close(fds[0]);
 #if RB_SAN
-			{ const int fd = open(errPath.c_str(), O_WRONLY | O_CREAT | O_TRUNC, 0600); if (fd >= 0) { dup2(fd, 2); close(fd); } }
+			{ const int fd = open(errPath.c_str(), O_RDWR | O_CREAT | O_TRUNC, 0600); if (fd >= 0) { dup2(fd, 2); close(fd); } }
 #else
 			{ struct rlimit rl; rl.rlim_cur = rl.rlim_max = static_cast<rlim_t>(3) << 30; setrlimit(RLIMIT_AS, &rl); }
 			{
@@ -649,6 +710,10 @@ int main(int argc, char** argv)
 			for (size_t r = next; r < total; ++r)
 			{
 				const Run& run = runs[r];
+#if RB_SAN
+				// one child per input: UBSan reports each source location only once per process
+				if (r > next && run.input != runs[next].input) { fflush(stdout); if (getenv("RB_LEAKCHECK") && __lsan_do_recoverable_leak_check()) _exit(45); _exit(46); }
+#endif
 				if (cached != run.input) { in = ParseInput(lines[run.input]); cached = run.input; }
 				labelOf(run, g_label, sizeof g_label);
 				const uint64_t cur = r;
@@ -677,6 +742,7 @@ int main(int argc, char** argv)
 		waitpid(pid, &status, 0);
 		if (WIFEXITED(status) && WEXITSTATUS(status) == 0) break;
 		if (!any) last = next;
+		if (WIFEXITED(status) && WEXITSTATUS(status) == 46) { next = static_cast<size_t>(last) + 1; continue; }     // input finished, next child
 		const bool selfReported = WIFEXITED(status) && (WEXITSTATUS(status) == 42 || WEXITSTATUS(status) == 43 || WEXITSTATUS(status) == 44);
 		if (!selfReported)
 		{
@@ -687,9 +753,11 @@ int main(int argc, char** argv)
 			san = SanitizerSummary(errPath);
 #endif
 			if (WIFEXITED(status) && WEXITSTATUS(status) == 45) {
-				fprintf(stdout, "{%s,\"o\":\"Sanitizer\",\"x\":\"leak-in-batch\",\"acc\":\"%s\",\"pk\":0,\"tb\":0,\"na\":0,%s}\n", label, RB_ACC, san.empty() ? "\"kind\":\"leak\"" : san.c_str());
+				// all runs of this input completed; the leak check at the end of the child reported: logged as one more observation of the input
+				fprintf(stdout, "{%s,\"o\":\"Sanitizer\",\"x\":\"leak-check\",\"acc\":\"%s\",\"pk\":0,\"tb\":0,\"na\":0,%s}\n", label, RB_ACC, san.empty() ? "\"kind\":\"leak\",\"file\":\"\",\"line\":0,\"report\":\"\"" : san.c_str());
 				fflush(stdout);
-				break;       // the batch itself ran to its end
+				next = static_cast<size_t>(last) + 1;
+				continue;
 			}
 			if (!san.empty()) fprintf(stdout, "{%s,\"o\":\"Sanitizer\",\"x\":\"report\",\"acc\":\"%s\",\"pk\":0,\"tb\":0,\"na\":0,%s,\"status\":%d}\n", label, RB_ACC, san.c_str(), status);
 			else fprintf(stdout, "{%s,\"o\":\"Crash\",\"x\":\"%s\",\"acc\":\"%s\",\"pk\":0,\"tb\":0,\"na\":0,\"sig\":%d,\"stack\":false,\"status\":%d}\n", label,
